@@ -618,6 +618,11 @@ def norm_answer(a):
     return a
 
 
+# child elements of the PAGE Metadata element (2013-07-15 and 2019-07-15 schemas): the keys of scan.metadata under
+# which "the Metadata fields are carried over"
+PAGE_META_TAGS = ('Creator', 'Created', 'LastChange', 'Comments', 'UserDefined', 'MetadataItem')
+
+
 def scan_diff(real, model) -> Optional[str]:
     """the real parse ({'ok': dump_scan} | {'err': class}) against a model answer of the same shape, compared at the
     level the statements of C01 / C05 / C08 observe:
@@ -626,7 +631,11 @@ def scan_diff(real, model) -> Optional[str]:
         differs as before;
       * scan.metadata: C01 lists what must be there ("the scan's id and size come from …", "the Metadata fields are
         carried over") but not that the dictionary holds nothing else: every key the model has must be present with
-        the same value, keys only the code has are ignored;
+        the same value, and keys only the code has are ignored — EXCEPT the keys that are child element names of the
+        PAGE Metadata element (PAGE_META_TAGS): "the Metadata fields are carried over" is about the fields of THIS
+        file, so those keys must be exactly the ones the model has (a Created / Comments / … the file does not
+        contain, e.g. left over from a document parsed earlier, is a difference); an extra non-PAGE key such as
+        `image_filename` stays free;
       * scan.reading_order: C05 only says when the order is used and when "document order is kept"; whether an unused
         order is kept as None or as an empty dict is observable through truthiness only (every reader tests
         `if reading_order`): falsy values are one value.  "Entries that reference unknown ids are ignored": whether
@@ -637,7 +646,7 @@ def scan_diff(real, model) -> Optional[str]:
         return None
     if 'ok' in real and 'ok' in model:
         r, m = dict(real['ok']), dict(model['ok'])
-        keys = {kv[0] for kv in m.get('metadata') or []}
+        keys = {kv[0] for kv in m.get('metadata') or []} | set(PAGE_META_TAGS)
         r['metadata'] = [kv for kv in r.get('metadata') or [] if kv[0] in keys]
         for x in (r, m):
             known = {reg.get('id') for reg in x.get('regions') or []}
